@@ -918,12 +918,10 @@ impl Generator {
         if rest == 0 {
             return self;
         }
-        debug_assert!(self.0.roll_hash.value() == 0);
         self.0.input_size = self.0.input_size.saturating_add(rest);
         for _ in 0..(rest % RollingHash::WINDOW_SIZE as u64) {
             self.0.roll_hash.update_by_byte(0);
         }
-        debug_assert!(self.0.roll_hash.value() == 0);
         for _ in 0..(rest % 64) {
             if self.0.is_last {
                 self.0.h_last.update_by_byte(0);
